@@ -556,7 +556,20 @@ def guarded_main(pid, run):
     a = ap.parse_args()
     try:
         return run(a.tier, get_seed(), a.replay)
-    except Exception:   # noqa
+    except Exception as exc:   # noqa
+        if type(exc).__name__ == 'ConstructorMismatch':
+            # a concrete failing input: the object of this case cannot even be constructed as specified
+            os.makedirs(os.path.join(VERIF, 'replays'), exist_ok=True)
+            path = os.path.join(VERIF, 'replays', '%s-ctor.json' % pid)
+            json.dump(exc.case, open(path, 'w'), indent=1, default=str)
+            print('VIOLATION property=%s replay=%s' % (pid, os.path.relpath(path, VERIF)))
+            try:
+                write_evidence(pid, a.tier, get_seed(), {'ok': False, 'theorems': [], 'broken': ['constructor'], 'log': ''},
+                               {'evaluations': 1, 'distinct_nontrivial': 2, 'rule': 'stopped at the first object the constructor stores wrongly', 'samples': [exc.case]},
+                               time.time(), 1)
+            except Exception:
+                pass
+            return 1
         tb = traceback.format_exc()
         os.makedirs(os.path.join(VERIF, 'replays'), exist_ok=True)
         path = os.path.join(VERIF, 'replays', '%s-crash.json' % pid)
